@@ -5,6 +5,7 @@ from functools import partial
 import trio
 
 from .base_runner import BaseRunner, OrphanedReturn
+from ._verif import point
 
 
 class TrioRunner(BaseRunner):
@@ -29,6 +30,7 @@ class TrioRunner(BaseRunner):
 
     def register_payload(self, payload: Callable[[], Awaitable]):
         assert self._trio_token is not None and self._submit_tasks is not None
+        point("t.reg.call")
         try:
             trio.from_thread.run(
                 self._submit_tasks.send, payload, trio_token=self._trio_token
@@ -60,6 +62,7 @@ class TrioRunner(BaseRunner):
 
     async def _manage_payloads_trio(self):
         self._trio_token = trio.lowlevel.current_trio_token()
+        point("t.run.begin")
         # We receive tasks from a possibly blocking call in the same event loop
         # To avoid deadlocking the event loop, the task buffer must always have
         # sufficient capacity to accept new tasks.
@@ -81,6 +84,7 @@ class TrioRunner(BaseRunner):
 
     async def _aclose_trio(self):
         # suppress trio cancellation to avoid raising an error in aclose
+        point("t.aclose.trio")
         try:
             await self._submit_tasks.aclose()
         except trio.Cancelled:
